@@ -19,7 +19,7 @@ RULE = ("Hypothesis: general graphs (IRI nodes; blank-node subjects in a labelle
         "or for blank-node subjects only keys and commonly printed figures are compared.  Non-trivial: >=1 incoming link between "
         "typed nodes; distinct by SHA-1 of the case.")
 ASSUMPTIONS = c01.ASSUMPTIONS
-BUDGET = {"quick": {"examples": 10000, "wall": 150}, "thorough": {"examples": 300000, "wall": 5400}}
+BUDGET = {"quick": {"examples": 10000, "wall": 150}, "thorough": {"examples": 150000, "wall": 900}}
 FLOORS = {"nontrivial": 0.3, "strict": 0.3}
 SUFFIX = "_rev"
 
